@@ -17,6 +17,7 @@ EXPLANATION = (
     "are visited in forward order; (R6) in the parser a code fence is terminated by the same sigil parser that opened it (the terminator and the body "
     "look-ahead derive from the opening parse), and the sigil selector maps each token kind to the parser that produces that kind. "
     "Not decided: the parser's classification of arbitrary paragraph shapes as prose or code."
+    ' (R7) the namespace id of a fence is hash_str of the whole fence name, only the fixed prefix stripped (no splitting, truncation or folding).'
 )
 
 EXEC = {"MechCode", "FencedMechCode", "Mika", "Float"}
